@@ -25,7 +25,7 @@ const SPEC: Spec = Spec {
         "inputs that trigger an open known finding whose effect would destroy the case (pool memory shorter than its alignment padding inside shared memory, growing a chunk of an older segment) are left out and counted under excluded_by_known_finding",
         "memory errors that leave no trace in returned values (reads of unmapped memory) would show as a dying worker, not as an oracle message; the ASan/libFuzzer stage of DESIGN C15 is not part of this binary",
     ],
-    watchdog_quick_s: 900,
+    watchdog_quick_s: 1800,
     watchdog_thorough_s: 7200,
 };
 
@@ -45,7 +45,7 @@ fn body(ctx: &mut Ctx) {
     );
     known.flush(ctx, "alloc_grid");
 
-    let n = ctx.scale(6_000, 180_000);
+    let n = ctx.scale(5_000, 150_000);
     ctx.proptest("dynamic", n, dynamic::case_strategy(ctx.scale(40, 80)), |c, obs| dynamic::run_case(c, &known, obs));
     known.flush(ctx, "dynamic");
 
